@@ -124,6 +124,23 @@ def apply_text_fault(text, f):
         cells = [f["key"]] + [f["v"]] * f["ncol"]
         lines.insert(f["i"] % (len(lines) + 1), ",".join(cells))
         return "\n".join(lines)
+    if k == "many_cols":
+        # a very wide table: column ``src`` repeated n more times, the copies'
+        # name cells blank (default names column_<letters>) or numbered
+        out = []
+        for l in lines:
+            cells = l.split(",")
+            key = cells[0].strip()
+            if len(cells) < 2 or not key or key.startswith("#"):
+                out.append(l + "," * f["n"])
+                continue
+            v = cells[1 + f["src"] % (len(cells) - 1)]
+            if key == "name":
+                extra = ["" if f["blank"] else "w%d" % i for i in range(f["n"])]
+            else:
+                extra = [v] * f["n"]
+            out.append(l + "," + ",".join(extra))
+        return "\n".join(out)
     if k == "add_col":
         return "\n".join(l + "," + (f["v"] if l.split(",")[0].strip() and not l.startswith("#") else "") for l in lines)
     if k == "char":
@@ -156,7 +173,7 @@ class C28(Spec):
     }
     assumptions = [
         "weakest fit of the technique: a configuration file at rest, storage faults at character/cell/line level; no scheduler or clock",
-        "inputs stay valid UTF-8 and below 64 KiB (the csv module's 128 KiB field limit is not part of the statement)",
+        "inputs stay valid UTF-8 and below 2 MiB, every field far below the csv module's 128 KiB field limit (which is not part of the statement)",
     ]
     rule = (
         "each run = one of three stored sample CSV files with an explicit list of 0-4 storage faults (truncate at a "
@@ -177,6 +194,8 @@ class C28(Spec):
         faults = []
         for _ in range(nf):
             k = rng.choice(["trunc", "drop_line", "dup_line", "swap_lines", "cell", "cell", "cell", "cell", "add_row", "add_col", "char", "ins", "crlf", "bom", "name_collision", "col_pair", "col_pair", "cell_copy", "cell_copy"])
+            if rng.random() < 0.004:
+                k = "many_cols"
             f = {"k": k}
             if k == "trunc":
                 f["at"] = rng.randrange(len(text) + 1)
@@ -186,6 +205,10 @@ class C28(Spec):
                 f["i"], f["j"] = rng.randrange(nlines), rng.randrange(nlines)
             elif k == "name_collision":
                 f["i"], f["j"] = rng.randrange(8), rng.randrange(8)
+            elif k == "many_cols":
+                f["n"] = rng.choice([30, 300, 700, 720, 1000])
+                f["src"] = rng.randrange(8)
+                f["blank"] = rng.random() < 0.7
             elif k == "cell_copy":
                 f["row"] = rng.choice(ROW_KEYS + ["quantization_matrix"] * 6 + ["dwt_depth", "dwt_depth_ho", "picture_bytes", "lossless"])
                 f["from"], f["to"] = rng.randrange(8), rng.randrange(8)
@@ -226,7 +249,7 @@ class C28(Spec):
             stats["fault:" + f["k"]] += 1
         changed = text != clean
         raw = text.encode("utf-8", errors="ignore")
-        if len(raw) > 65536:
+        if len(raw) > (1 << 21):
             stats["discard:too-long"] += 1
             return Outcome(DISCARD, events, stats=stats)
         fobj = io.TextIOWrapper(io.BytesIO(raw), encoding="utf-8-sig")
